@@ -1120,7 +1120,7 @@ func TestVerifKeepAlive(t *testing.T) {
 			}
 		}
 	}
-	nbusy := verifN(150, 2000)
+	nbusy := verifN(150, 1200)
 	for i := 0; i < nbusy; i++ {
 		c := kaRandom(rng, 8, 4, []string{"server", "client"}[i%2])
 		kinds := kaBusyKinds[c.real]
